@@ -155,7 +155,34 @@ Fixpoint posto (rp : rpath) (d : nat) (n : node) {struct n} : list event :=
   end.
 End W.
 
-(* process_dir as a whole, for the repaired code: an empty depth range selects nothing; otherwise
-   the iterator is driven to the end.  [size n] steps always suffice (walk_pre/post_correct). *)
+(* ---------- process_dir (src/find/mod.rs) on top of the iterator ----------
+   walkdir always runs in pre-order, without a depth floor (mind = 0, post = false); find filters -mindepth itself
+   and, with -depth, keeps each directory pending until something that is not beneath it arrives. *)
+Definition wcfg (c : cfg) : cfg := {| mind := 0; maxd := maxd c; post := false |}.
+Definition edepth (e : event) : nat := match e with Ent _ d _ => d | Err rp => length rp end.
+(* entries below -mindepth are walked but not evaluated; diagnostics are never filtered *)
+Definition keepd (c : cfg) (e : event) : bool := match e with Ent _ d _ => mind c <=? d | Err _ => true end.
+
+(* the pending directories (deepest first) that are due when something of depth d arrives *)
+Fixpoint flush (d : nat) (pend : list event) : list event * list event :=
+  match pend with
+  | p :: rest => if d <=? edepth p then let '(em, rem) := flush d rest in (p :: em, rem) else ([], pend)
+  | [] => ([], [])
+  end.
+Fixpoint defer (mn : nat) (evs pend : list event) : list event :=
+  match evs with
+  | [] => pend                                         (* end of the walk: everything still pending, deepest first *)
+  | e :: evs' =>
+      let '(em, rem) := flush (edepth e) pend in
+      match e with
+      | Ent _ d true => if d <? mn then em ++ defer mn evs' rem else em ++ defer mn evs' (e :: rem)
+      | Ent _ d false => if d <? mn then em ++ defer mn evs' rem else em ++ e :: defer mn evs' rem
+      | Err _ => em ++ e :: defer mn evs' rem
+      end
+  end.
+
+(* process_dir as a whole.  [size n] steps always suffice for the iterator (walk_pre_correct).  The prune verdict is
+   only ever asked for entries that are evaluated, and is ignored with -depth. *)
 Definition walk (c : cfg) (P : rpath -> nat -> bool) (n : node) : list event :=
-  if maxd c <? mind c then [] else run c P true (size n) (init n).
+  if post c then defer (mind c) (run (wcfg c) (fun _ _ => false) true (size n) (init n)) []
+  else filter (keepd c) (run (wcfg c) (fun rp d => (mind c <=? d) && P rp d) true (size n) (init n)).
